@@ -2,5 +2,7 @@
 EXTENDS Workflow, Json
 \* every complete history with the predicted description of every asset (one line per history)
 Emit == Len(hist) = MaxOps => PrintT(<<"VEC", ToJson([ops |-> hist, pred |-> [i \in 1..N |-> Desc(assets, i)]])>>)
+\* with Variants: only the complete histories made of three signings (reads, tampering and the legacy settings are covered by the plain export)
+EmitLegacy == (Len(hist) = MaxOps /\ \A k \in 1..Len(hist) : hist[k].op = "S") => PrintT(<<"VEC", ToJson([ops |-> hist, pred |-> [i \in 1..N |-> Desc(assets, i)]])>>)
 \* simulation mode: emit at the end of each behaviour as well
 ====
